@@ -49,7 +49,7 @@ theorem insert_eq (C : CompressFn) (g : Gen.Writer) (k v : Bytes) :
 
 /-- **`Writer::insert` is the model's `W.insert`**: same new writer state (block writer, every index level,
     bytes handed to the sink, entry count) when the model accepts the entry, a panic when it traps. -/
-theorem src_writer_insert (cd : Codec) (hcd : ∀ b, (cd.compress b).length < 2 ^ 64) (g : Gen.Writer) (w : W)
+theorem src_writer_insert (cd : Codec) (hcd : ∀ b : Bytes, b.length < 2 ^ 63 → (cd.compress b).length < 2 ^ 64) (g : Gen.Writer) (w : W)
     (k v : Bytes) (hr : RW g w) (hs : SmallW g) :
     match W.insert cd w k v with
     | .ok w' => ∃ g', Gen.Writer.insert (codecFn cd) g k v = .ok g' ∧ RW g' w' ∧
